@@ -44,9 +44,18 @@ CHECKS = {
  "C12": ("TLC model checking of MVUpd/MVNorm over all update-dictionary sequences + replay with six numeric types + TLC trace validation in GF(p)",
          "Per-key independence, zero-fill, key monotonicity and the normalisation cases are TLC invariants / action properties; every TLC state is replayed with int, float, Fraction and NumPy scalars (finiteness included).",
          "zero test compared between Q and GF(p), disagreeing cases skipped and counted", "§4 C12"),
+ "C13": ("TLC model checking of MetricLoss.tla (shared metric as a bag; probe/update/get/revert micro-steps; NoRevert negative control) + every TLC call history replayed on all river metrics accepted by validate_loss_function",
+         "BagUnchanged and ValueIsSingle are TLC invariants over all call histories by several wrappers sharing one metric; each enumerated history is replayed on the 41 accepted river metrics with a fresh-metric oracle for the single-pair value, the metric's state compared after every call, plus 200-10000-call random histories and a routing check through recording metric subclasses.",
+         "metrics of the installed river version, default constructor arguments; zero counts left in confusion matrices are unobservable", "§4 C13"),
+ "C14": ("TLC case enumeration Wrappers.tla (shape x batch x feature_names x key order; river label state machine with OneHot invariant), each state one implementation test of SklearnWrapper / TorchWrapper / RiverWrapper + dispatch over installed model classes",
+         "The canonical form, batch = row-wise, order independence with names and the one-hot-over-seen-labels law are stated in the specification; TLC enumerates the cases and the harness executes each against the real wrappers with stub prediction functions whose outputs encode which inputs reached them.",
+         "installed sklearn / river / torch versions; stub prediction functions", "§4 C14"),
  "C15": ("TLC case enumeration ContractMatrix.tla (one implementation test per state) + TLC invariants/action properties of IncExplainer.tla (budget, store-once-after, no self background) + TLC trace validation of contract clauses",
          "The configuration matrix is enumerated by TLC and each state constructed and exercised on the real classes; the call contract (model budget, seen counter, storage update once and last, arguments untouched, returned dict) is checked by TLC on recorded calls and as invariants of the specification.",
          "budget stated for the default imputer; 1200 configurations, short streams", "§4 C15"),
+ "C16": ("TLC case enumeration NormConf.tla in exact rationals (RatiosKept, SumIsOne, RangeIsOne, ZeroFallbackAllZero, BoundWellFormed), each state one implementation test per numeric type + bounds on reachable explainer states + VarNonNegative invariant of IncExplainer.tla",
+         "All importance dictionaries of <= 3 values in -2..2 x both modes and a variance x alpha x t x delta grid are enumerated by TLC with the normalisation laws as invariants; every state is executed against _normalize_importance_values / get_normalized_importance_values with int, float, Fraction and NumPy scalars, and get_confidence_bound against the specification's BoundSq.",
+         "a bound is required to equal the formula (non-negative, finite); tolerance 1e-9 (1e-6 float32)", "§4 C16"),
  "C17": ("TLC model checking with a Fault action at every callback step (FaultAtomic, Efficiency; CommitEarly negative controls) + replay of all TLC fault behaviours into the code + enumerated fault injection validated by TLC",
          "Every (call, callback) fault position of the bounded model is explored by TLC and replayed into the real explainers; random scenarios get every fault position injected in turn and TLC checks atomicity and the efficiency identity of the continued stream.",
          "single and double faults; `seen` after a failed call left open", "§4 C17"),
